@@ -264,7 +264,7 @@ SCENARIOS = {
                  named=["SYSTEM-SIGNAL"], names=["s", "s1", "b", "p"], pos=[], wild=False),
     "files": dict(fix="F3", depth=2, tdepth=3, ops=["CreateFile", "RemoveFile", "AddToFile", "RemoveFromFile", "Remove", "CreateNamed", "CreateSub", "Move", "Copy"],
                   elems=["ELEMENTS"], named=["AR-PACKAGE", "SYSTEM-SIGNAL"], names=["a", "d"], pos=[], wild=False, files=["f1", "f3"], vers=["V50"], ser=True),
-    "merge": dict(fix="F5", depth=3, tdepth=4, ops=["Load", "CreateFile", "AddToFile", "RemoveFromFile", "RemoveFile", "Duplicate"], elems=[], named=[], names=["a"],
+    "merge": dict(fix="F5", depth=3, tdepth=3, ops=["Load", "CreateFile", "AddToFile", "RemoveFromFile", "RemoveFile", "Duplicate"], elems=[], named=[], names=["a"],
                   pos=[], wild=False, files=["f3"], vers=["V50"], docs=["pb", "pe", "pr", "pn", "po", "px", "pf", "cd", "cf", "dupk", "pv", "mt", "k1", "k2", "p2", "pi1", "pi2"], ser=True),
     "mixed": dict(fix="F6", depth=2, tdepth=3, ops=["SetText", "RemoveText", "CreateSub", "CreateNamed", "Remove", "RemoveKind", "Rename", "SetComment", "InsertText", "RemoveTextItem"],
                   elems=["TT"], named=["XREF-TARGET"], names=["x", "y"], pos=[0, 1], wild=False, ser=True),
